@@ -250,8 +250,10 @@ func (rt *sessRT) writer(conn net.Conn, dr *dirRT, sc *spec.Script, isClient boo
 }
 
 func (rt *sessRT) streamProp() string {
-	if rt.w.Spec.Property == "C04" {
-		return "C04"
+	switch rt.w.Spec.Property {
+	case "C04", "C05", "C06", "C10":
+		// the genuine workload's stream oracle is part of these properties
+		return rt.w.Spec.Property
 	}
 	if rt.cli.spec.Transport == "udp" {
 		return "C02"
@@ -464,6 +466,14 @@ func (rt *sessRT) checkEnd(dr *dirRT, rd int, err error, readerIsClient bool) {
 
 // serverAcceptLoop hands accepted proxy connections to their scripted session.
 func (w *World) serverAcceptLoop() {
+	n := w.Spec.Server.Acceptors
+	for i := 1; i < n; i++ {
+		go w.acceptLoop1()
+	}
+	w.acceptLoop1()
+}
+
+func (w *World) acceptLoop1() {
 	for {
 		conn, req, err := w.srv.Accept()
 		if err != nil {
@@ -473,6 +483,7 @@ func (w *World) serverAcceptLoop() {
 			// Accept can fail for one connection (bad SOCKS request, timeout); keep serving.
 			w.probe("accept-error")
 			w.mu.Lock()
+			w.acceptErrs++
 			if w.Res.Info == nil {
 				w.Res.Info = map[string]string{}
 			}
@@ -489,6 +500,11 @@ func (w *World) serverAcceptLoop() {
 }
 
 func (w *World) onAccept(conn net.Conn, req *model.Request) {
+	if ra := conn.RemoteAddr().String(); w.Tap.isAttackerLocked(ra) {
+		w.violate(w.Spec.Property, "accept-from-attacker", "Server.Accept returned a proxy connection from attacker address %s with request %v", ra, req)
+		conn.Close()
+		return
+	}
 	key, ok := parseSessKey(req.DstAddr.FQDN)
 	w.mu.Lock()
 	rt := w.sessions[key]
